@@ -52,6 +52,10 @@ PROFILES = ("zero", "uniform", "bimodal", "kind_bias", "entity_bias")
 class Sim:
     def __init__(self, tape: Tape, prop: str = "", max_steps: int = 400_000,
                  max_vtime: float = 1e7, wall_cap: float = 60.0, profile: int | None = None):
+        from . import seams
+
+        if seams._installed:
+            seams.reset_cachebox_state()
         self.tape = tape
         self.prop = prop
         self.loop = SimLoop(max_steps=max_steps, max_vtime=max_vtime)
